@@ -18,7 +18,14 @@ def main() -> None:
         sys.stderr.write(f"@@BEGIN {item['i']}\n")
         sys.stderr.flush()
         try:
-            tr = scenario.run_scenario(item["sc"], wall_limit=wall)
+            run = scenario.run_scenario
+            if isinstance(item["sc"], dict) and item["sc"].get("runner"):
+                # optional property-specific runner "package.module:function" (same signature as
+                # run_scenario): extra instrumentation / timeline ops around the shared Sim
+                import importlib
+                modname, fname = item["sc"]["runner"].split(":")
+                run = getattr(importlib.import_module(modname), fname)
+            tr = run(item["sc"], wall_limit=wall)
             out = {"i": item["i"], "trace": tr}
         except Exception as e:  # noqa: BLE001
             import traceback
